@@ -764,7 +764,7 @@ fn compressed_wire(c: &mut Ctx) {
 /// The zone-file reader is a name constructor too: names around the 63-octet label limit and
 /// the 255-octet name limit, written with and without escapes, absolute and relative to an
 /// origin, are accepted exactly when they are valid, and then hold the octets of the model.
-fn scanner_names(c: &mut Ctx) {
+pub(crate) fn scanner_names(c: &mut Ctx) {
     use domain::zonefile::inplace::{Entry, Zonefile};
     let fam = "scan";
     let total = c.total(60_000, 6_000_000);
